@@ -898,6 +898,23 @@ def _h_by_lemma(eng, fn, *args):
     return VBool(True)
 
 
+def _h_as_list(eng, x):
+    if isinstance(x, VRef) and isinstance(x.typ, ty.TList):
+        return x
+    if isinstance(x, VRef) and x.typ == ty.ANY:
+        return VRef(x.term, ty.parse('list[any]'), x.st)
+    raise Unsupported('as_list of this value')
+
+
+def _h_is_ndarray(eng, x):
+    f = z3.Function('isinstance_numpy_ndarray', I, B)
+    return VBool(f(x.term))
+
+
+def _h_is_list(eng, x):
+    return VBool(eng.isinstance_term(x, VFunc('builtin', name='list')))
+
+
 def _h_typeof(eng, x):
     return eng.type_of_value(x)
 
@@ -912,5 +929,6 @@ def _h_is_none(eng, x):
 
 SPEC_HELPERS = dict(implies=_h_implies, iff=_h_iff, index_of=_h_index_of, order_of=_h_order_of, key_at=_h_key_at,
                     is_fresh=_h_is_fresh, same_elems=_h_same_elems, same_dict=_h_same_dict, typeof=_h_typeof, same=_h_same,
-                    same_obj=_h_same, now=_h_now, was=_h_was, origin=_h_origin, by_lemma=_h_by_lemma,
+                    same_obj=_h_same, now=_h_now, was=_h_was, origin=_h_origin, by_lemma=_h_by_lemma, as_list=_h_as_list, is_ndarray=_h_is_ndarray,
+                    is_list=_h_is_list,
                     is_none=_h_is_none)
